@@ -223,6 +223,17 @@ def derived_ops():
         ("upper", lambda f: f.upper(), None),
         ("from_str(str(f))", lambda f: FmtStr.from_str(str(f)), lambda fc: fc),
         ("width_aware_slice(0:2)", lambda f: f.width_aware_slice(slice(0, 2)), lambda fc: fc[:2]),
+        # pieces cut *inside* a run by the column-aware splitter (a piece must not inherit the rendered form of its run)
+        ("width_aware_slice(1:2)", lambda f: f.width_aware_slice(slice(1, 2)), lambda fc: fc[1:2]),
+        ("width_aware_slice(0:1)", lambda f: f.width_aware_slice(slice(0, 1)), lambda fc: fc[:1]),
+        ("width_aware_slice(1:3)", lambda f: f.width_aware_slice(slice(1, 3)), lambda fc: fc[1:3]),
+        ("first line of width_aware_splitlines(2)", lambda f: list(f.width_aware_splitlines(2))[0] if len(f) else f, lambda fc: fc[:2]),
+        ("last line of width_aware_splitlines(2)", lambda f: list(f.width_aware_splitlines(2))[-1] if len(f) else f, lambda fc: fc[len(fc) - ((len(fc) - 1) % 2 + 1):] if fc else []),
+        ("last line of width_aware_splitlines(3)", lambda f: list(f.width_aware_splitlines(3))[-1] if len(f) else f, lambda fc: fc[len(fc) - ((len(fc) - 1) % 3 + 1):] if fc else []),
+        ("first line of width_aware_splitlines(5)", lambda f: list(f.width_aware_splitlines(5))[0] if len(f) else f, lambda fc: fc[:5]),
+        ("f[1]", lambda f: f[1] if len(f) > 1 else f[0:0], lambda fc: fc[1:2]),
+        ("last piece of split('b')", lambda f: f.split("b")[-1], None),
+        ("last piece of splitlines()", lambda f: (f.splitlines() or [f])[-1], None),
     ]
 
 
@@ -397,7 +408,7 @@ def run(ctx):
         rep.merge(d, "derived_values")
     rep.validated = rep.n
     rep.rule = (
-        "derived: every value of U_layout(3,2,P3) pushed through 29 public operations with the operand never observed / rendered / fully "
+        "derived: every value of U_layout(3,2,P3) pushed through 40 public operations (cuts inside a run by slice, column slice and wrapping among them) with the operand never observed / rendered / fully "
         "observed first; singles: all 59 049 assignments of (fg, bg in 8 colours+none) x (each of 6 styles absent/True/False) x texts %r; pairs: "
         "every True-set of P_full (5 184) next to each element of a sharp palette, both orders, with/without an empty formatted run "
         "between; triples over the 24-palette. Distinct by construction; non-trivial = some attribute given and text non-empty. "
